@@ -42,9 +42,10 @@ type C20NodeSpec struct {
 }
 
 type C20Case struct {
-	Format string        `json:"format"`
-	Nodes  []C20NodeSpec `json:"nodes"`
-	Nums   []int64       `json:"nums,omitempty"` // pool of integers that nodes point to (shared *int64)
+	Records bool          `json:"records,omitempty"` // GNode / GInner registered as record types
+	Format  string        `json:"format"`
+	Nodes   []C20NodeSpec `json:"nodes"`
+	Nums    []int64       `json:"nums,omitempty"` // pool of integers that nodes point to (shared *int64)
 }
 
 func (c *C20Case) build() *GNode {
@@ -276,6 +277,7 @@ func init() {
 		New: func() interface{} { return &C20Case{} },
 		Gen: func(t *rapid.T, ctx *Ctx) interface{} {
 			c := &C20Case{Format: rapid.SampledFrom([]string{"cbe", "cte"}).Draw(t, "format")}
+			c.Records = rapid.IntRange(0, 3).Draw(t, "records") == 0
 			n := rapid.IntRange(1, 12).Draw(t, "n")
 			pickNode := func(label string) int { return rapid.IntRange(0, n-1).Draw(t, label) }
 			byValue := !findingOpen("S80-pointers-inside-by-value-containers")
@@ -336,6 +338,11 @@ func init() {
 			c := ci.(*C20Case)
 			cfg := newCfg()
 			cfg.Iterator.RecursionSupport = true
+			if c.Records {
+				cfg.Iterator.RecordTypes[reflect.TypeOf(GNode{})] = "node"
+				cfg.Iterator.RecordTypes[reflect.TypeOf(GInner{})] = "inner"
+				ctx.Label("record-types")
+			}
 			shared, cyclic := c.features()
 			ctx.NonTrivial(shared || cyclic)
 			ctx.LabelIf(shared, "shared")
